@@ -1163,6 +1163,42 @@ def _groups(out):
     return gs
 
 
+def _jumped_left_across_key_conflict(circ_in, out):
+    """Measurement/control pairs on one key (A before B in the input) that come out in the other order although A was NOT
+    moved to a later moment: B was pulled left across A.  (Two measurements of one key are not tracked by the primitive at
+    all - that is part of the recorded finding - so only measure/control pairs, which it does index, count here.)  (The recorded merge finding is the opposite motion: a key-carrying
+    operation merged right into a later one and thereby carried behind its dependent.)  The merge primitives emit one
+    output moment per input moment, so top-level moment indices are comparable."""
+    import cirq
+
+    if len(out) != len(circ_in):
+        return []
+    inp = {}
+    for mi, m in enumerate(circ_in.moments):
+        for op in m.operations:
+            for k in _ids(op):
+                inp[k] = (mi, {str(x) for x in cirq.measurement_key_objs(op)}, {str(x) for x in cirq.control_keys(op)})
+    outpos = {}
+    for mi, m in enumerate(out.moments):
+        for op in m.operations:
+            ids = set(_ids(op))
+            u = op.untagged
+            if isinstance(u, cirq.CircuitOperation) and any(str(t).startswith(CREATED_TAG_PREFIXES) for t in op.tags):
+                for o in u.circuit.all_operations():
+                    ids |= _ids(o)
+            for k in ids:
+                outpos[k] = mi
+    bad = []
+    ks = [k for k in inp if k in outpos]
+    for a in ks:
+        for b in ks:
+            ia, ma, ca = inp[a]
+            ib, mb, cb = inp[b]
+            if ia < ib and (ma & cb or ca & mb) and outpos[a] > outpos[b] and outpos[a] <= ia:
+                bad.append((a, b, ia, ib, outpos[a], outpos[b]))
+    return bad
+
+
 def _check_not_merged_across(ctx, name, circ_in, out, wit):
     where = {}
     for mi, m in enumerate(circ_in.moments):
@@ -1304,6 +1340,11 @@ def sec_primitives(ctx, rng, case_no):
             explained = _satisfies(case, alt)
         except Exception:  # noqa
             explained = False
+        jumped = _jumped_left_across_key_conflict(circ, o)
+        if jumped:
+            # not the recorded motion (a key-carrying operation carried *right* behind its dependent)
+            explained = False
+            w2 = dict(w2, pulled_left_across_conflicting_key=jumped[:3])
         mech = K_MERGE_KEYS if explained else None
         a = judge_distribution(ctx, case, "merge_operations_to_circuit_op", o, w2, mech=mech)
         b = judge_state(ctx, case, "merge_operations_to_circuit_op", o, w2, mech=mech)
